@@ -913,12 +913,23 @@ FILE *__wrap_fopen(const char *path, const char *mode) {
 int __wrap_fclose(FILE *f) {
 	SimScope simscope_; return fclose(f); }
 
-// ---- deterministic heap fill for the library's own allocations (non-ASan variants only)
+// ---- libc calls of the library as preemption points (plans with sched.libc_yield): the copy loops of the getters and the
+// lookup loops of the state code have no other call between reading a pointer and using it. Non-ASan variants also get a
+// deterministic heap fill for the library's own allocations.
+static inline void libc_point() { Task *t = me; if (t && G.running && G.cur == t && G.p.libc_yield && t->sim_depth == 0) { SimScope simscope_; sim::maybe_preempt_at_call(); } }
 void *__wrap_malloc(size_t n) {
+	libc_point();
 	void *p = malloc(n);
+#ifndef SIM_VARIANT_asan
 	if (p) memset(p, 0xA5, n);
+#endif
 	return p;
 }
+void __wrap_free(void *p) { libc_point(); free(p); }
+char *__wrap_strdup(const char *s) { libc_point(); return strdup(s); }
+char *__wrap_strndup(const char *s, size_t n) { libc_point(); return strndup(s, n); }
+int __wrap_strcmp(const char *a, const char *b) { libc_point(); return strcmp(a, b); }
+void *__wrap_memcpy(void *d, const void *s, size_t n) { libc_point(); return memcpy(d, s, n); }
 
 // ---- serial device
 int __wrap_open(const char *path, int flags, ...) {
